@@ -159,13 +159,17 @@ Record iter_in (R G : Type) := {
   reports : list (Z * R);   (* all new reports of this poll in the order of their time stamps *)
   completed : list Z;       (* trials whose job ended at this poll *)
   failed : list Z;          (* trials whose job failed at this poll (possibly after reports of the same poll) *)
+  hold : bool;              (* the stop criterion held at the end of the previous iteration and
+                               wait_trial_completion_when_stopping: no scheduling in this iteration *)
   sugg : list G;            (* one entry per scheduler.suggest call of _schedule_new_tasks *)
   spec_choice : list Z      (* trials picked by the speculative callback *)
 }.
-Arguments reports {R G}. Arguments completed {R G}. Arguments failed {R G}. Arguments sugg {R G}. Arguments spec_choice {R G}.
+Arguments reports {R G}. Arguments completed {R G}. Arguments failed {R G}. Arguments hold {R G}. Arguments sugg {R G}. Arguments spec_choice {R G}.
 
 Record tstate (S : Type) := { sst : S; be : backend; running : list Z; exhausted : bool }.
 Arguments sst {S}. Arguments be {S}. Arguments running {S}. Arguments exhausted {S}.
+
+Definition nilb {A} (l : list A) : bool := match l with [] => true | _ => false end.
 
 Definition clone_ev (i : Z) (cl : option Z) : list event :=
   match cl with Some j => [EClone i j] | None => [] end.
@@ -243,7 +247,7 @@ Section Tuner.
   Fixpoint mark_failed (b : backend) (l : list Z) : backend :=
     match l with [] => b | i :: r => mark_failed (set_status b i Failed) r end.
 
-  (* one iteration of the while loop of Tuner.run; bool = an exception left the loop *)
+  (* one iteration of the while loop of Tuner.run; bool = the loop is left (exception or break) *)
   Definition iteration (st : tstate S) (it : iter_in R G) : tstate S * list event * bool :=
     let run := running st in
     (* the backend only returns what was asked for: trial_ids = running_trials_ids *)
@@ -258,9 +262,12 @@ Section Tuner.
        stopped/paused in this batch *)
     let s1 := fold_left (on_error sch) (filter (fun i => negb (mem_Z i done)) fl) s1 in
     let run1 := filter (fun i => negb (mem_Z i done) && negb (mem_Z i compl) && negb (mem_Z i fl)) run in
-    if exhausted st then
+    if exhausted st || hold it then
+      (* "if len(running_trials_ids) > 0: sleep  else: break" — the break skips on_loop_end *)
+      if nilb run1 then ({| sst := s1; be := b1; running := run1; exhausted := exhausted st |}, ev1, true)
+      else
       let '(s3, b3, ev3) := loop_end s1 b1 (spec_choice it) in
-      ({| sst := s3; be := b3; running := run1; exhausted := true |}, ev1 ++ ev3, false)
+      ({| sst := s3; be := b3; running := run1; exhausted := exhausted st |}, ev1 ++ ev3, false)
     else
       let '(s2, b2, run2, ex, er, ev2) := schedule s1 b1 run1 (sugg it) in
       if er then ({| sst := s2; be := b2; running := run2; exhausted := ex |}, ev1 ++ ev2, true)
